@@ -244,7 +244,7 @@ pub fn decode(data: &[u8], prof: &Profile) -> Scenario {
             },
         });
     }
-    let mut sc = Scenario { cfg, slots, init, steps };
+    let mut sc = Scenario { cfg, slots, init, steps, motif: 0 };
     if (255 - mb as u16) < prof.p_motif {
         plant_motif(&mut sc, mb, mv);
     }
@@ -283,6 +283,7 @@ fn plant_motif(sc: &mut Scenario, mb: u8, mv: u8) {
         let st = sc.steps[0].clone();
         sc.steps.push(st);
     }
+    sc.motif = which + 1;
     // first evaluation: a clean build of the motif
     sc.steps[0].plan.fail = 0;
     sc.steps[0].plan.abort = None;
